@@ -5,7 +5,9 @@ C04 — No data races: what happened before fulfilment is visible after it.
    soundness of the ownership discipline (`Mem/OwnProofs.lean`): a run whose plain accesses follow the
    discipline never races — for every number of threads, locations and steps.
 2. Pattern instances proved race free for all thread counts / interleavings / stale reads, together with
-   witnesses that the required orders are necessary (`Mem/MP.lean`, `Mem/RC.lean`).
+   witnesses that the required orders are necessary: publication through a flag (`Mem/MP.lean`), reference
+   counting incl. the `GetRef() == 1` guard (`Mem/RC.lean`), mutual exclusion through one word (`Mem/Lock.lean`),
+   hand-off of nodes through an RMW-only word (`Mem/Treiber.lean`).
 3. The tie to the source: every atomic operation site of the library (regenerated from the clang AST on every
    run into `Extracted/Orders.lean`) has a role in one of these patterns and an order sufficient for that role.
    The sites where the code's order is NOT sufficient are listed explicitly (known finding D9) and proved
@@ -14,6 +16,7 @@ C04 — No data races: what happened before fulfilment is visible after it.
 import YaclibModel.Mem.MP
 import YaclibModel.Mem.RC
 import YaclibModel.Mem.Lock
+import YaclibModel.Mem.Treiber
 import YaclibModel.Model.OrdersCheck
 
 namespace Yaclib.Props.C04
@@ -54,6 +57,15 @@ theorem critical_sections_ordered {oAcq oRel : Ord} {rmwRel : Bool} (hacq : oAcq
 
 theorem relaxed_unlock_races : ∃ p, Lock.PReach .acq .rlx false p ∧ p.s.race = true := Lock.lock_relaxed_release_races
 theorem relaxed_lock_races : ∃ p, Lock.PReach .rlx .rel false p ∧ p.s.race = true := Lock.lock_relaxed_acquire_races
+
+/-- nodes handed over through a word that only RMWs modify (callback lists, strand inbox, waiter lists, the
+    coroutine mutex' sender stack): release on the publishing RMW, acquire on the taking RMW ⇒ the taker may read,
+    write and free every node published before; any number of threads and nodes, stale pre-check loads -/
+theorem handoff_word_race_free {oPush oTake : Ord} (hrel : oPush.hasRel = true) (hacq : oTake.hasAcq = true)
+    {p : Treiber.PState} (h : Treiber.PReach oPush oTake p) : p.s.race = false := Treiber.treiber_race_free hrel hacq h
+
+theorem relaxed_push_races : ∃ p, Treiber.PReach .rlx .acq p ∧ p.s.race = true := Treiber.treiber_relaxed_push_races
+theorem relaxed_take_races : ∃ p, Treiber.PReach .rel .rlx p ∧ p.s.race = true := Treiber.treiber_relaxed_take_races
 
 /-! ### the tie: every atomic site of the source has a role and (except the known ones) a sufficient order -/
 
